@@ -278,6 +278,13 @@ func oracleC14CLI(p *Pair, env *Env, a [][]byte) *Failure {
 		t := Tree{"regex-assembly/": nil, "rules/REQUEST-901-INITIALIZATION.conf": in, "crs-setup.conf.example": in,
 			"rules/keep.data": in, "docs/README.md": in, "rules/sub/x.conf": in}
 		_ = t.write(sb)
+		// a .conf / .example path that is a symbolic link to a file stored under another name: it is a file under the
+		// root like the others (the markers are read and written through it)
+		_ = os.MkdirAll(filepath.Join(sb, "local"), 0o755)
+		_ = os.WriteFile(filepath.Join(sb, "local", "linked.active"), in, 0o644)
+		_ = os.Symlink(filepath.Join("..", "local", "linked.active"), filepath.Join(sb, "rules", "linked.conf"))
+		_ = os.WriteFile(filepath.Join(sb, "local", "setup.active"), in, 0o644)
+		_ = os.Symlink(filepath.Join("local", "setup.active"), filepath.Join(sb, "crs-setup.conf"))
 		return sb, t
 	}
 	sb1, _ := mk()
@@ -304,7 +311,7 @@ func oracleC14CLI(p *Pair, env *Env, a [][]byte) *Failure {
 	if f != nil {
 		return f
 	}
-	for _, rel := range []string{"rules/REQUEST-901-INITIALIZATION.conf", "crs-setup.conf.example", "rules/sub/x.conf"} {
+	for _, rel := range []string{"rules/REQUEST-901-INITIALIZATION.conf", "crs-setup.conf.example", "rules/sub/x.conf", "rules/linked.conf", "crs-setup.conf"} {
 		got, _ := os.ReadFile(filepath.Join(sb2, rel))
 		if !bytes.Equal(got, want) {
 			return &Failure{What: "update-copyright (binary) wrote something else than updateRules computes", Detail: rel}
